@@ -143,6 +143,10 @@ class Judge:
                 self.note('raise-in-connection_lost')
             return
         if typ == 'E':
+            if not snap[q]['closing']:
+                self.flag('C09', k, 'the peer of connection %d sent EOF (it has ended its side) but the broker did not close the '
+                          'connection: it stays registered (open=%s, subscribed %s) with nobody left to report its loss'
+                          % (q, snap[q]['open'], snap[q]['active']))
             st['closing'] = True
             self.expect_quiet(k, newf, newclose - {q}, except_q=None, ctx='EOF of %d' % q, pid='C10')
             return
@@ -439,6 +443,11 @@ def necessary(case, d):
         ev = rec['ev']
         if ev[0] == 'L' and rec['delivered']:
             gone.add(ev[1])
+        if ev[0] == 'E' and rec['delivered'] and not rec.get('raised'):
+            s = rec['snap'].get(ev[1])
+            if s and not s['closing']:
+                fail.setdefault('C09', 'event %d %r: the peer of connection %d sent EOF (it has ended its side) but the broker did not close the '
+                                'connection: it stays registered (open=%s, subscribed %s)' % (k, ev[:2], ev[1], s['open'], s['active']))
         for q in gone:
             s = rec['snap'].get(q)
             if s and (s['open'] or s['active'] or s.get('registered')):
